@@ -62,6 +62,12 @@ def programs(tier, seed):
         ps.append(("mul_add_mul_%s" % st, prog([inp(t), inp(t), inp(t), nd("Multiply", [1, 2]), nd("Add", [4, 3]), nd("Multiply", [5, 1])]), [t, t, t]))
         ps.append(("prods_bcast_%s" % st, prog([inp(A(st, [2, 3])), inp(A(st, [2, 3])), inp(a3), inp(a3), nd("Multiply", [1, 2]), nd("Multiply", [3, 4]), nd("Add", [5, 6])]),
                    [A(st, [2, 3]), A(st, [2, 3]), a3, a3]))
+    # rows built from private and public data, stacked through a vector, addressed by one and by two indices
+    for ix in ([1], [2, 1], [0, 2]):
+        t3 = A("i32", [3])
+        ps.append(("stacked_rows_get_%s" % "_".join(map(str, ix)),
+                   prog([inp(t3), inp(t3), inp(t3), nd("Multiply", [1, 2]), nd("Add", [2, 3]), nd("Subtract", [1, 3]),
+                         nd("CreateVector", [4, 5, 6], t=t3), nd("VectorToArray", [7]), nd("Get", [8], index=ix)]), [t3, t3, t3]))
     m22 = A("i64", [2, 2])
     ps.append(("matmul_i64", prog([inp(m22), inp(m22), nd("Matmul", [1, 2])]), [m22, m22]))
     ps.append(("mixmul_i64", prog([inp(A("i64", [3])), inp(A("b", [3])), nd("MixedMultiply", [1, 2])]), [A("i64", [3]), A("b", [3])]))
@@ -80,6 +86,29 @@ def programs(tier, seed):
     ikt = A("i32", [4])
     ps.append(("sort_int_key", prog([inp(ikt), inp(vt), nd("CreateNamedTuple", [1, 2], nm=["k", "v"]),
                                      {"op": "CustomNamed", "cname": "SortByIntegerKey", "key": "k", "deps": [3]}]), [ikt, vt]))
+    return ps
+
+
+def iterate_programs():
+    """(name, program with a body graph, input types): Iterate through the whole pipeline in every inlining mode; the
+    annotated bodies select the depth-optimised inliners (associative: prefix sums over a NON-commutative product)"""
+    ps = []
+    m = A("i64", [2, 2])
+    for n in (5, 16, 19):
+        body = {"nodes": [inp(m), inp(m), nd("Matmul", [1, 2]), nd("CreateTuple", [3, 3])], "out": 4, "gann": ["AssociativeOperation"]}
+        vt = {"k": "v", "n": n, "of": m}
+        main = {"nodes": [inp(m), inp(vt), {"op": "Iterate", "deps": [1, 2], "gdeps": [1]}], "out": 3}
+        ps.append(("iter_assoc_matmul_%d" % n, {"graphs": [body, main], "main": 2}, [m, vt]))
+    # a general (unannotated) body: running sum of products, state and output differ
+    t = A("i32", [2])
+    body = {"nodes": [inp(t), inp(t), nd("Multiply", [1, 2]), nd("Add", [3, 2]), nd("CreateTuple", [4, 3])], "out": 5}
+    vt = {"k": "v", "n": 4, "of": t}
+    main = {"nodes": [inp(t), inp(vt), {"op": "Iterate", "deps": [1, 2], "gdeps": [1]}], "out": 3}
+    ps.append(("iter_general_muladd_4", {"graphs": [body, main], "main": 2}, [t, vt]))
+    # a Call of a graph used twice
+    callee = {"nodes": [inp(t), inp(t), nd("Multiply", [1, 2]), nd("Subtract", [3, 1])], "out": 4}
+    main = {"nodes": [inp(t), inp(t), {"op": "Call", "deps": [1, 2], "gdeps": [1]}, {"op": "Call", "deps": [3, 1], "gdeps": [1]}], "out": 4}
+    ps.append(("call_twice", {"graphs": [callee, main], "main": 2}, [t, t]))
     return ps
 
 
@@ -114,6 +143,14 @@ def jobs(tier, seed):
             jid += 1
             js.append({"id": jid, "name": name, "family": "core", "prog": p, "owners": ow, "outs": outs, "mode": ["Simple", "Default", "Extreme"][oi % 3],
                        "inputs": [rand_value(t, rng) for t in its], "seeds": [seed % 1000 + s for s in range(nseeds)], "junk": junk})
+    for name, p, its in iterate_programs():
+        for oi, (ow, outs) in enumerate((([0, 1], [2]), ([1, 2], []), (["pub", 0], [0, 1]))):
+            for mode in ("Simple", "Default", "Extreme"):
+                if tier == "quick" and (oi + len(mode)) % 2 == 1 and not name.endswith("_16"):
+                    continue
+                jid += 1
+                js.append({"id": jid, "name": name, "family": "iter", "prog": p, "owners": ow, "outs": outs, "mode": mode,
+                           "inputs": [rand_value(t, rng, small=True) for t in its], "seeds": [seed % 1000 + s for s in range(nseeds)], "junk": junk[:1 if tier == "quick" else 2]})
     for name, p, vals in perm_jobs(rng):
         for ow in ([0, 1], [1, "pub"], ["sh", 2]):
             jid += 1
